@@ -34,9 +34,24 @@ func c07r1(p *Prog, r *Reporter) {
 	// table makers: functions whose direct effects include setting a table's index/target (Init, Activate)
 	makers := map[*ssa.Function]bool{}
 	for _, fn := range p.Funcs {
-		paths := strings.Join(directPaths(fn), " ")
-		if typeName(recvType(fn)) == "archetype" && strings.Contains(paths, "archetypeData.index") && (strings.Contains(paths, "RelationTarget") || strings.Contains(paths, "archetype.archetypeAccess")) {
-			makers[fn] = true
+		if typeName(recvType(fn)) != "archetype" {
+			continue
+		}
+		// sets the table's index to something other than a negative constant (Init, Activate — not Deactivate)
+		for _, b := range fn.Blocks {
+			for _, ins := range b.Instrs {
+				st, ok := ins.(*ssa.Store)
+				if !ok {
+					continue
+				}
+				if _, f, _, ok := loadedField(st.Addr); !ok || f != "index" || typeName(fieldOwner(st.Addr)) != "archetypeData" {
+					continue
+				}
+				if c, isC := st.Val.(*ssa.Const); isC && c.Value != nil && c.Int64() < 0 {
+					continue
+				}
+				makers[fn] = true
+			}
 		}
 	}
 	if len(makers) == 0 {
